@@ -409,6 +409,19 @@ def inlined(module, func, depth=2, tests=False, exclude=(), nested=False):
         new.body = process(new.body)
         if not changed[0]:
             break
+    if used:
+        # the expanded helpers' locals and spellings are brought to those of the reference function of the same name: there the
+        # code may stand in place (a helper that was factored out keeps its own variable names)
+        from . import alpha
+        quals, p_ = [func.name], getattr(func, "_parent", None)
+        while p_ is not None:
+            if isinstance(p_, FUNC + (ast.ClassDef,)):
+                quals.append(p_.name)
+            p_ = getattr(p_, "_parent", None)
+        fr = alpha.reference_function(module.rel, ".".join(reversed(quals)))
+        if fr is not None:
+            alpha.normalise_function(new, fr)
+            ast.fix_missing_locations(new)
     _link(new, getattr(func, "_parent", None))
     new._inlined_from = func
     return new, sorted(set(used))
